@@ -314,6 +314,10 @@ func judgeExpr(d Data, e *ex.E) engine.Outcome {
 		}
 		got, w := o.v, want.V
 		if want.Amb {
+			if gt := got.Type(); want.EmptyElem != cty.NilType && (gt.IsListType() || gt.IsSetType()) && !gt.ElementType().Equals(want.EmptyElem) {
+				out := engine.Fail("c01."+kind+".empty-result-element-type", "the result is an empty %s although applying the per-element steps to the source's element type gives %s:\n  source: %q", gt.FriendlyName(), want.EmptyElem.FriendlyName(), o.src)
+				return &out
+			}
 			got, w = tupleize(got), tupleize(w)
 		}
 		if !got.RawEquals(w) {
